@@ -177,7 +177,10 @@ impl Response {
                 safe_assert(line.len() >= 2)?;
                 let line_without_crlf = &line[0..line.len() - 2];
                 let line_parts: Vec<&str> = line_without_crlf.splitn(2, ':').collect();
-                headers.add(HeaderType::from(line_parts[0]), line_parts[1].trim_start());
+                headers.add(
+                    HeaderType::from(line_parts[0]),
+                    line_parts[1].trim_start_matches(|c| c == ' ' || c == '\t'),
+                );
             }
         }
 
